@@ -135,7 +135,16 @@ fn element(rng: &mut Rng, b: &mut TreeBuilder, depth: usize, budget: &mut usize)
         match rng.below(10) {
             0..=4 => {
                 if depth < 4 && *budget > 0 {
+                    // now and then the same subtree twice: nodes that are equal in content but distinct
+                    let twin = rng.pct(12);
+                    let saved = rng.g.clone();
+                    let saved_budget = *budget;
                     element(rng, b, depth + 1, budget);
+                    if twin {
+                        let mut again = Rng { g: saved };
+                        let mut b2 = saved_budget;
+                        element(&mut again, b, depth + 1, &mut b2);
+                    }
                 } else {
                     b.text(*rng.pick(&VALUES));
                 }
